@@ -62,6 +62,9 @@ def run_suite():
 
 
 def main():
+    import fcntl
+    lockf = open("/tmp/wt-confirm.lock", "w")
+    fcntl.flock(lockf, fcntl.LOCK_EX)  # one confirmation at a time in the shared scratch worktree
     if sys.argv[1] == "--baseline":
         head = ensure_wt()
         t0 = time.time()
